@@ -49,7 +49,7 @@ def gen_cases(tier, seed):
     cases = []
     for grid in (GR_T if T else GR_Q):
         nd = len(grid)
-        for cs in ("lattice", "far", "dup", "random", "random-f32"):
+        for cs in ("lattice", "far", "huge", "dup", "random", "random-f32"):
             for kn, prm in KERNELS:
                 ws = list(WIDTHS)
                 if nd == 2:
@@ -67,7 +67,7 @@ def gen_cases(tier, seed):
                         if batch == [2, 1] and not T and kn != "spline":
                             continue
                         for real in (False, True):
-                            if real and (batch or cs in ("far", "random-f32")):
+                            if real and (batch or cs in ("far", "huge", "random-f32")):
                                 continue
                             cases.append(dict(kind="interp", grid=grid, batch=batch, cset=cs, kernel=kn, param=prm,
                                               width=w, real=real))
@@ -107,6 +107,11 @@ def coord_set(name, grid, seed):
         rows = []
         for j in range(5):
             rows.append([[-3.0 * n - 0.5, 4.0 * n + 0.25, -n - 1.0, 2.0 * n, 7.5 * n][(j + d) % 5] for d, n in enumerate(grid)])
+        return np.array(rows, dtype=np.float64)
+    if name == "huge":
+        rows = []
+        for j in range(5):
+            rows.append([[1.0e6 + 0.375, -2.0e6 - 0.625, 3.0e5 + 0.125, -7.0e5 + 0.5, 1.5e6 + 0.875][(j + 2 * d) % 5] for d, n in enumerate(grid)])
         return np.array(rows, dtype=np.float64)
     if name == "dup":
         p = [0.75 + 0.5 * d for d in range(nd)]
@@ -203,6 +208,12 @@ def run_case(case, seed):
         ref = (W @ x.ravel()).reshape(osh)
         if list(y.shape) != osh or not np.abs(y - ref).max() <= tol * max(1.0, np.abs(ref).max()) * 10:
             viol.append(dict(oracle="linop-vs-reference", key=dict(site="linop.Interpolate", when=when), detail="Linop result differs from W_ref x"))
+        if not f32:
+            y32 = np.asarray(A(x.astype(np.complex64)))
+            trans += 1
+            if not np.abs(y32 - ref).max() <= 2e-5 * max(1.0, np.abs(ref).max()):
+                viol.append(dict(oracle="linop-vs-reference", key=dict(site="linop.Interpolate", when=when + ", complex64 data"),
+                                 detail="complex64 data with float64 coordinates: Linop result differs from W_ref x by %.3g" % np.abs(y32 - ref).max()))
         Gd = sp.linop.Gridding(ish, coord, kernel=kn, width=wid, param=prm_arg)
         z = Gd(y)
         ref2 = (W.T @ ref.ravel()).reshape(ish)
